@@ -966,6 +966,21 @@ func runScenario(sc *Scenario) {
 		emit(map[string]any{"ev": "goroutines", "rotator": rotator})
 		if wd.fs != nil {
 			emit(map[string]any{"ev": "handles", "n": atomic.LoadInt64(&wd.fs.Handles)})
+			// C13 across Close: every call has returned, every reader has released its state - also the ones that pinned a
+			// state over a truncation AND over Close: no file of a removed segment may be left (files the metadata lists
+			// but that are missing - a rotation cut short by Close - are Open's business, not this clause's)
+			st, _ := wd.meta.Current()
+			listed := map[string]bool{}
+			for _, sg := range st.Segments {
+				listed[segment.FileName(sg)] = true
+			}
+			extra := []string{}
+			for _, n := range wd.fs.Names() {
+				if !listed[n] {
+					extra = append(extra, n)
+				}
+			}
+			emit(map[string]any{"ev": "dircheck", "extra": extra, "n": len(extra)})
 		}
 		// everything acknowledged before Close is there after the next Open
 		if wd.rec != nil {
